@@ -409,6 +409,8 @@ func Exec(fsys hackpadfs.FS, st Step, hs *Handles, mt MTimeSet) (res Result) {
 			for i := range entries {
 				entries[i] = nil // the returned slice is the caller's
 			}
+		} else if len(entries) > 0 {
+			res.Data = "partial:" + EntriesString(entries) // like os.ReadDir: what was read before the failure comes with the error
 		}
 	case "ReadFile":
 		b, err := hackpadfs.ReadFile(fsys, st.P)
